@@ -11,7 +11,7 @@ use serde_json::{json, Value};
 use std::collections::{HashSet, VecDeque};
 use vph::refdec;
 
-pub const RULE: &str = "initial files: stereo 16-bit, 40 PCM frames, with {no, one 0-byte, one 1-byte, one 20-byte, one 100-byte, two (20+7)} padding blocks × {no comment, comment} × {no, one application block} × {seek table, none}; edit alphabet applied through update_file: grow/shrink the comment so that (new metadata size − old) = first padding size + d for every d ∈ −8..+8, shrink the comment by 1..8 bytes, remove the comment, add application blocks of 0/1/100 bytes, remove applications, add a second padding, resize the first padding to 0/1/20, remove all padding, move padding first / reverse block order, no-op, callback returning Err, and invalid lists (two 32×32 icons, two general icons, a 2^24-byte application block, padding pushed past 2^24−1 by shrinking a 16 MiB neighbour); BFS over ALL edit sequences to depth 2 (thorough 3) from every initial file with content de-duplication; per transition: audio bytes from the first frame on are identical and still decode to the same PCM; Ok(false) ⇒ file length unchanged and the blocks read back equal the edited list apart from the first padding's size; Ok(true) ⇒ rebuilt sink == write_blocks(edited list) ++ identical frames and the original is untouched; Err ⇒ original byte-for-byte untouched and nothing written to the sink";
+pub const RULE: &str = "initial files: stereo 16-bit, 40 PCM frames, with {no, one 0-byte, one 1-byte, one 20-byte, one 100-byte, two (20+7)} padding blocks × {no comment, comment} × {no, one application block} × {seek table, none}; edit alphabet applied through update_file: grow/shrink the comment so that (new metadata size − old) = first padding size + d for every d ∈ −8..+8, shrink the comment by 1..8 bytes, remove the comment, add application blocks of 0/1/100 bytes, remove applications, add a second padding, resize the first padding to 0/1/20, remove all padding, move padding first / reverse block order, no-op, callback returning Err, and invalid lists (two 32×32 icons, two general icons, a 2^24-byte application block, padding pushed past 2^24−1 by shrinking a 16 MiB neighbour); BFS over ALL edit sequences to depth 2 (thorough 3) from every initial file with content de-duplication; per transition: audio bytes from the first frame on are identical and still decode to the same PCM; Ok(false) ⇒ file length unchanged and the blocks read back equal the edited list apart from the first padding's size; Ok(true) ⇒ rebuilt sink == write_blocks(edited list) ++ identical frames and the original is untouched; Err ⇒ original byte-for-byte untouched and nothing written to the sink; plus path-like updates where the `rebuilt` closure truncates the very file being read (what metadata::update(path) does with File::create): 3 file sizes (40 PCM frames, 9 KB and 40 KB of incompressible audio, i.e. beyond any 8 KiB I/O buffer) × {no padding, 100-byte padding} × 8 edits, same oracle on the single aliased file";
 pub const ASSUMPTIONS: &[&str] = &["edits replace the block list with a pre-computed edited list inside the callback (equivalent to in-place mutation since BlockList is plain data)", "write_blocks/BlockList::read themselves are C11's business"];
 pub fn bounds(quick: bool) -> Value {
     json!({"depth": if quick { 2 } else { 3 }, "size_delta": "-8..+8 around exact fit", "initial_files": 48})
@@ -291,6 +291,132 @@ fn big_scenarios() -> Vec<(String, Vec<u8>, BlockList)> {
     v
 }
 
+
+// ---------- path-like updates: the `rebuilt` closure re-creates (truncates) the very file that is being read, which is
+// what the path-based `metadata::update` does with `File::create(path)`; files larger than any I/O buffer included
+#[derive(Clone)]
+struct SharedFile(std::rc::Rc<std::cell::RefCell<Vec<u8>>>);
+struct Handle {
+    f: SharedFile,
+    pos: usize,
+}
+impl std::io::Read for Handle {
+    fn read(&mut self, buf: &mut [u8]) -> std::io::Result<usize> {
+        let d = self.f.0.borrow();
+        let off = self.pos.min(d.len());
+        let n = buf.len().min(d.len() - off);
+        buf[..n].copy_from_slice(&d[off..off + n]);
+        self.pos += n;
+        Ok(n)
+    }
+}
+impl std::io::Write for Handle {
+    fn write(&mut self, buf: &[u8]) -> std::io::Result<usize> {
+        let mut d = self.f.0.borrow_mut();
+        if d.len() < self.pos + buf.len() {
+            d.resize(self.pos + buf.len(), 0);
+        }
+        d[self.pos..self.pos + buf.len()].copy_from_slice(buf);
+        self.pos += buf.len();
+        Ok(buf.len())
+    }
+    fn flush(&mut self) -> std::io::Result<()> {
+        Ok(())
+    }
+}
+impl std::io::Seek for Handle {
+    fn seek(&mut self, p: std::io::SeekFrom) -> std::io::Result<u64> {
+        let np: i128 = match p {
+            std::io::SeekFrom::Start(x) => x as i128,
+            std::io::SeekFrom::Current(d) => self.pos as i128 + d as i128,
+            std::io::SeekFrom::End(d) => self.f.0.borrow().len() as i128 + d as i128,
+        };
+        if np < 0 {
+            return Err(std::io::Error::new(std::io::ErrorKind::InvalidInput, "negative seek"));
+        }
+        self.pos = np as usize;
+        Ok(self.pos as u64)
+    }
+}
+
+fn alias_files() -> Vec<(String, Vec<u8>)> {
+    let sig = Sig { rate: 44100, bps: 16, ch: 2 };
+    let mut v = Vec::new();
+    for (sz, frames) in [("small", 40usize), ("9k", 2100), ("40k", 9000)] {
+        // position-identifying noise: the frames are incompressible, so the audio is far larger than an 8 KiB buffer
+        let mut g = crate::core::Lcg(0x5eed_c10a);
+        let pcm: Vec<i32> = (0..frames * 2).map(|_| (g.next() % 65536) as i32 - 32768).collect();
+        for pad in [None, Some(100u32)] {
+            let base = encode(WriterKind::Sample, &Opt { seek: Seek::Off, pad: Pad::None, block: 256, ..Opt::base16() }, &sig, &pcm).expect("c10 corpus");
+            let mut b = BlockList::read(&base[..]).unwrap();
+            let mlen = ser(&b).unwrap().len();
+            let mut vc = VorbisComment::default();
+            vc.insert("TITLE", "abcdefghijkl");
+            b.insert(vc);
+            if let Some(p) = pad {
+                b.insert(Padding { size: p.try_into().unwrap() });
+            }
+            let mut out = ser(&b).unwrap();
+            out.extend_from_slice(&base[mlen..]);
+            assert!(frames < 100 || out.len() > 4 * frames * 9 / 10, "alias corpus file is not incompressible");
+            v.push((format!("alias-{sz}-{}", if pad.is_some() { "pad100" } else { "nopad" }), out));
+        }
+    }
+    v
+}
+const ALIAS_EDITS: &[&str] = &["fit:8", "fit:0", "shrink:3", "app:100", "rm-comment", "noop", "pad2", "rm-pad"];
+
+fn alias_step(file: &[u8], edit: &str) -> Result<Option<String>, (String, String)> {
+    let cur = BlockList::read(file).map_err(|e| ("machinery".to_string(), format!("{e:?}")))?;
+    let new_list = match edited(edit, &cur) {
+        Some(b) => b,
+        None => return Ok(None),
+    };
+    let st0 = refdec::decode(file).map_err(|r| ("machinery-state-undecodable".to_string(), format!("{} {}", r.code, r.msg)))?;
+    let audio0 = &file[st0.first_frame_offset..];
+    let shared = SharedFile(std::rc::Rc::new(std::cell::RefCell::new(file.to_vec())));
+    let (s1, s2) = (shared.clone(), shared.clone());
+    let nl = new_list.clone();
+    let res = guarded(move || {
+        update_file::<_, _, flac_codec::Error>(
+            Handle { f: s1, pos: 0 },
+            move || {
+                s2.0.borrow_mut().clear(); // File::create(path) truncates the file that is still open for reading
+                Ok(Handle { f: s2.clone(), pos: 0 })
+            },
+            move |b: &mut BlockList| {
+                *b = nl;
+                Ok(())
+            },
+        )
+    })
+    .map_err(|p| (format!("panic@{}", crate::core::panic_loc(&p)), format!("update_file panics: {p}")))?;
+    let after = shared.0.borrow().clone();
+    match res {
+        Err(e) => {
+            if after != file {
+                return Err(("failed-update-modified-file".into(), format!("update returned Err({e:?}) but the file changed ({} → {} bytes)", file.len(), after.len())));
+            }
+            Ok(Some("refused".into()))
+        }
+        Ok(rebuilt) => {
+            let want_meta = ser(&new_list).map_err(|e| ("invalid-list-accepted".to_string(), e))?;
+            let st1 = refdec::decode(&after).map_err(|r| ("updated-file-undecodable".to_string(), format!("after a {} update through a handle that aliases the file, the independent decoder rejects it: {} {} (file {} → {} bytes)", if rebuilt { "rebuilding" } else { "in-place" }, r.code, r.msg, file.len(), after.len())))?;
+            if &after[st1.first_frame_offset..] != audio0 {
+                return Err(("audio-bytes-changed".into(), format!("frames differ after the update: {} audio bytes before, {} after", audio0.len(), after.len() - st1.first_frame_offset)));
+            }
+            if rebuilt {
+                if after[..st1.first_frame_offset] != want_meta[..] {
+                    return Err(("rebuilt-file-wrong".into(), "rebuilt metadata is not the edited list".into()));
+                }
+            } else if after.len() != file.len() {
+                return Err(("in-place-changed-length".into(), format!("{} → {}", file.len(), after.len())));
+            }
+            Ok(Some(if rebuilt { "rebuilt".into() } else { "in-place".into() }))
+        }
+    }
+}
+
 pub fn run(ctx: &Ctx, acc: &mut Acc) {
     let depth = if ctx.quick { 2 } else { 3 };
     for (name, file) in initial_files() {
@@ -334,6 +460,26 @@ pub fn run(ctx: &Ctx, acc: &mut Acc) {
         }
         if acc.samples.len() < 3 {
             acc.sample(json!({"initial": name, "edits": ["fit:0", "shrink:3"], "states_from_this_file": seen.len()}));
+        }
+    }
+    for (name, file) in alias_files() {
+        for edit in ALIAS_EDITS {
+            if !ctx.mine() {
+                continue;
+            }
+            match alias_step(&file, edit) {
+                Ok(None) => {}
+                Ok(Some(l)) => {
+                    acc.states += 1;
+                    acc.executions += 1;
+                    acc.transitions += 1;
+                    acc.outcome(format!("alias:{}:{l}", edit.split(':').next().unwrap()));
+                }
+                Err((c, d)) => {
+                    acc.executions += 1;
+                    acc.violation(format!("C10|alias|{c}"), format!("{name}, edit {edit}, update through handles that alias one file (as metadata::update(path) does): {d}"), json!({"kind":"edit-alias","name":name,"edit":edit}));
+                }
+            }
         }
     }
     for (name, file, nb) in big_scenarios() {
@@ -412,6 +558,12 @@ pub fn replay(v: &Value) -> Option<(bool, String)> {
                 }
             }
             Some((false, log.join("\n")))
+        }
+        "edit-alias" => {
+            let name = v["name"].as_str()?;
+            let file = alias_files().into_iter().find(|f| f.0 == name)?.1;
+            let r = alias_step(&file, v["edit"].as_str()?);
+            Some((r.is_err(), format!("{r:?}")))
         }
         "edit-big" => {
             let name = v["name"].as_str()?;
